@@ -59,6 +59,10 @@ def check(ctx: Ctx) -> None:
     # create_table on a table whose pointer is lost adopts the numerically latest version (not v9 over v10)
     from .c10 import r11 as c10_r11
     c10_r11(ctx, "C18.R17")
+    # a legacy table (bare-number pointer, v<N>.metadata.json files) whose pointer is lost must be FOUND by the creator's recovery,
+    # not re-initialised: the legacy spelling stays inside the language of the metadata-file regex
+    from .c10 import r1 as c10_r1
+    ctx.shared(c10_r1, "C10.R1", "C18.R19", "recovery recognises every metadata file name the package ever wrote: an existing table is never taken for an empty directory")
 
 
 SCHEMA_OWNERS = {
